@@ -1,6 +1,6 @@
 (* C17 -- the theorems of the property, over all operation lists, and the refuted statements for the tree as pinned. *)
 From Coq Require Import List NArith ZArith Bool Lia.
-From Muscle Require Import Gen.Consts Cont.StrL0 Cont.StrModel Cont.StrLemmas Cont.StrGrow Cont.StrCore Cont.StrOps Cont.StrL0Facts Cont.StrOps2 Cont.StrProd Cont.StrRefine Cont.StrNulfree.
+From Muscle Require Import Gen.Consts Cont.StrL0 Cont.StrModel Cont.StrSpec Cont.StrLemmas Cont.StrGrow Cont.StrCore Cont.StrOps Cont.StrL0Facts Cont.StrOps2 Cont.StrProd Cont.StrRefine Cont.StrNulfree.
 Import ListNotations.
 Local Open Scope N_scope.
 
@@ -184,7 +184,7 @@ Theorem exec_refines ops : forall s,
   map abs_out (snd (exec1 s ops)) = snd (exec0 (abs s) ops) /\
   Forall out_inv (snd (exec1 s ops)).
 Proof.
-  induction ops as [|o t IH]; intros s I F R; cbn [StrModel.exec1 exec0].
+  induction ops as [|o t IH]; intros s I F R; cbn [StrSpec.exec1 exec0].
   - cbn [fst snd map]. splits; trivial.
   - destruct R as [Ok R].
     destruct (step_refines s o I F Ok) as (I1 & A1 & O1 & V1).
@@ -316,6 +316,14 @@ Example fixed_distance_same_witness :
   distance_code true [107;105;116;116;101;110] [115;105;116;116;105;110;103] NOLIMIT = 3.
 Proof. vm_compute. repeat split. Qed.
 
+(* on the pinned tree the matcher of Replace/WithReplacements(Hashtable) restarted a partially matched key from its
+   first character: "aab" is not found in "aaab", although it occurs at offset 1 *)
+Lemma pinned_multi_match_refuted :
+  exists key l, key_at [(key, [88])] (dropN 1 l) = Some (key, [88]) /\ naive_matches key key l 0 = [].
+Proof. exists [97; 97; 98], [97; 97; 97; 98]. vm_compute. split; reflexivity. Qed.
+Example naive_matches_finds_plain : naive_matches [97; 98] [97; 98] [120; 97; 98; 97; 98] 0 = [1; 3].
+Proof. vm_compute. reflexivity. Qed.
+
 (* F31: on the pinned tree ShrinkToFit(2^32-1) cuts the last character off a small-buffer String, and leaves a
    heap String whose length equals its capacity (the terminator lies outside the buffer) *)
 Lemma pinned_shrink_refuted :
@@ -389,6 +397,17 @@ Example ex_run_nontrivial :
   is_long (fst r) = false /\ abs cM (fst r) = [37;49;120;121;120;121] /\
   existsb (fun o => match o with R1Str x => is_long x | _ => false end) (snd r) = true.
 Proof. vm_compute. repeat split. Qed.
+(* ... and so is a script over the later additions: "aaab", simultaneous replacement {aab->X} (the case the pinned matcher
+   missed), distance to a longer string with a maximum, a word insertion, Arg of the text printf gave for 2.5 *)
+Definition ex_ops2 : list op :=
+  [OSetCstr (CLit [97;97;97;98;37;49]) NOLIMIT; OReplaceMulti [([97;97;98], [88]); ([97], [89;89])] NOLIMIT;
+   OGetDistance (ALit [120;97;88;37;49]) 2; OAssign (OWithWord NOLIMIT ASelf [32]);
+   OAssign (OArgFloatText [50;46;53;48;48;48;48;48] 3); OAssign (OIndented 2 32); ONumCmp ASelf true; OFlatten].
+Example ex_run_ok2 : run_ok [] ex_ops2.
+Proof. decide_ok. Qed.
+Example ex_run_nontrivial2 : fst (exec0 [] ex_ops2) = [32;32;89;89;88;50;46;53;48;48;32;89;89;88;50;46;53;48;48].
+Proof. vm_compute. reflexivity. Qed.
+
 (* the premises of storage_irrelevant / alias_eq / flatten_roundtrip are met by a small-buffer and a heap String
    holding the same bytes *)
 Example ex_two_modes :
